@@ -266,7 +266,8 @@ class C04Clauses(Clauses):
         if want is None:
             return None
         want = want * s / d
-        if not representable(want, s, d, s / d):
+        parts = [I.sizes.get(t) ** e for t, e in list(src_nf[1]) + list(dst_nf[1]) if I.sizes.get(t)]
+        if not representable(want, s, d, s / d, *parts):
             I.count("C04.value.skipped-float-range")
             return None
         err = rel_err(frac(got.magnitude), want)
